@@ -49,7 +49,9 @@ CHECKS = {
             "DESIGN.md section 3 / C04"),
     "C05": ("exploration",
             "reference-model monitor: truncated state compared with independently computed dense Schmidt spectra of the "
-            "original state at every cut (two-sided discarded-weight bound), limits and norm asserted after every compress",
+            "original state at every cut (two-sided discarded-weight bound), limits and norm asserted after every compress; "
+            "executable model of the documented kept count (sequential dense Schmidt truncation in sweep order) compared cut "
+            "by cut; the configuration object judged on synthetic spectra",
             "Canonical states incl. degenerate spectra and rank-deficient inputs compressed with every criterion and kind of "
             "limit from both directions; both inequalities are theorems, so any excursion is a defect of the truncation.",
             "dense SVD at every cut (prod(d) <= 20000); slack 1e-8",
@@ -82,8 +84,9 @@ CHECKS = {
     "C09": ("exploration",
             "reference-model monitor: every chain evolution scheme is run on generated models and compared with "
             "scipy expm / DOP853 on the dense vector; measured convergence order, solver differential, adaptive vs "
-            "tolerance, splitting, conservation monitors along trajectories, bond-limit invariant, Krylov contract "
-            "observing Hermiticity at the real call sites",
+            "tolerance, splitting, conservation monitors along trajectories, bond-limit invariant, metamorphic homogeneity "
+            "monitor (evolve(mu*psi) = mu*evolve(psi) with the factor in the tensors), Krylov contract observing "
+            "Hermiticity at the real call sites",
             "39 scheme variants rotated over generated Hermitian models/sectors/states with oracles A-F, time-dependent "
             "H(t), density-operator states, multi-call histories and the shared-EvolveConfig hostile class.",
             "bond dimensions sufficient to hold the result (generic full-rank initial states); calibrated acceptance "
@@ -112,7 +115,8 @@ CHECKS = {
             "tdvp_ps2) in real and imaginary time against the dense propagator with per-scheme oracles (exact within "
             "solver tolerance where the scheme is exact, measured convergence order on step halving otherwise), sector "
             "and label monitors on every result, norm/energy conservation monitor for truncated one-site TDVP over "
-            "multi-step histories, linear-tree-versus-chain differential monitor, auxiliary-space (purified) states",
+            "multi-step histories, linear-tree-versus-chain differential monitor, auxiliary-space (purified) states, "
+            "metamorphic homogeneity monitor from un-normalised product and full-rank states",
             "All tree kinds (linear, binary, MCTDH-like, T3NS, random with multi-set / virtual root, internal and leaf "
             "nodes); none/one/two quantum numbers; full-rank, sector-limited, truncated and product states; prefactors; "
             "2-4-call histories mixing schemes, steps, real and imaginary time.",
@@ -122,7 +126,8 @@ CHECKS = {
     "C13": ("exploration",
             "alias monitor: fingerprints (todense*coeff) of ALL live objects are recorded before and re-computed after "
             "every public call of a generated history; second phase mutates one object in place and observes the others; "
-            "np.shares_memory recorded as diagnostic",
+            "np.shares_memory recorded as diagnostic; per-scheme imaginary-time histories with complex Hamiltonians "
+            "(input fingerprint, dtype, identity, shared tensor memory)",
             "Histories over pools of states (bond dimensions below and above their own limit), density operators and "
             "operators: every state-producing and measuring call incl. every evolution scheme in real and imaginary time "
             "with zero and non-zero offset, then in-place mutations through the public API.",
@@ -132,7 +137,9 @@ CHECKS = {
     "C14": ("fault_enumeration",
             "fault injection + offline checker over recorded directory states: SIGKILL at every file-system syscall of the "
             "dump protocol (strace -e inject) and Python-level partial-write/os._exit injection, restart histories over "
-            "the distinct dirty states; round-trip and spill-to-disk differential monitors",
+            "the distinct dirty states; round-trip and spill-to-disk differential monitors (shadow list for every read, "
+            "tensors handed out earlier re-examined after every write); the packaged thermal job's result dictionary and "
+            "state dumps",
             "Every crash point of three dumps in generation 1, every crash point of the first dump(s) of jobs restarted "
             "into each distinct directory state (two generations quick, three thorough), swallowed-IOError histories, "
             "random-instant kills; dump/load round trips of Mps/MpDm/Mpo/TTNS with identical continuations; "
@@ -142,7 +149,8 @@ CHECKS = {
             "DESIGN.md section 3 / C14"),
     "C15": ("exploration",
             "reference-model monitor over generated expression programs: each node is evaluated with the library's "
-            "operators and denoted as a dense matrix that must equal the matrix expression of its operands; eq/hash laws",
+            "operators and denoted as a dense matrix that must equal the matrix expression of its operands; eq/hash laws; "
+            "executable model of simplify(atol) (group same terms, add, then threshold)",
             "Random expression DAGs (depth <= 5) over all public arithmetic operators, scalar types, one/two quantum "
             "number components, simplify tolerances; per-symbol quantum numbers tracked; equality/hash consistency over "
             "pairs equal by different routes.",
@@ -151,7 +159,8 @@ CHECKS = {
     "C16": ("exploration",
             "reference-model monitor with references that do not use the matrix under test (own ladder algebra in an "
             "enlarged basis, Gauss-Legendre quadrature, Pauli algebra, displaced-oscillator Hamiltonians, translation "
-            "operator), history-independence monitor on basis objects",
+            "operator), history-independence monitor on basis objects; closed forms for the Phonon / Mol / Quantity helpers and "
+            "dense operators for the packaged model accessors and MPO shorthands",
             "Deterministic parameter grid + random parameters over every supported symbol of every basis class and the "
             "Holstein / spin-boson / translation-invariant builders (all schemes, periodic wrap-around).",
             "documented truncation at the highest level; N <= 12, powers <= 6; quadrature tolerance 1e-8",
@@ -159,7 +168,8 @@ CHECKS = {
     "C17": ("exploration",
             "reference-model monitor: qc_model/int_to_h/read_fcidump Hamiltonians vs an independent fermionic matrix built "
             "from bit strings; swap walks vs the Jordan-Wigner Hamiltonian rebuilt in the new orbital order; OFS runs of "
-            "optimisation and TDVP-PS2 observed through wrappers on try_swap_site / single_sweep",
+            "optimisation and TDVP-PS2 observed through wrappers on try_swap_site / single_sweep; spin-traced reduced "
+            "density matrices of the PySCF interface against their definitions on the dense vector",
             "Static fermionic reference (1..4 spatial orbitals, stacked/flat, with/without quantum numbers, FCIDUMP input), "
             "operator swaps with and without the Jordan-Wigner correction, on-the-fly swapping in DMRG and evolution with "
             "all criteria; swaps actually performed are counted and required.",
@@ -168,7 +178,7 @@ CHECKS = {
     "C18": ("exploration",
             "icontract pre/postconditions on expm_krylov, svd_qn, eigh_qn bound on every call site (also active in situ "
             "under canonicalise/compress/TDVP/DMRG workloads), dense expm / SVD references, sys.monitoring line events "
-            "proving which Krylov exit branch ran",
+            "proving which Krylov exit branch ran; injected LAPACK failures (eigh_tridiagonal, gesdd) drive the two fallback paths",
             "Direct hostile workloads (structured spectra, invariant subspaces, all dt phases, block sizes; arbitrary "
             "label patterns incl. empty and one-sided sectors, both systems, full/economic, SVD/QR) plus in-situ call "
             "sites; all four Krylov exit branches are required to be observed.",
@@ -176,7 +186,8 @@ CHECKS = {
             "DESIGN.md section 3 / C18"),
     "C20": ("exploration",
             "icontract postcondition on bipartite_vertex_cover at every call site + hook on _decompose_graph + "
-            "small-scope exhaustive enumeration of graphs, against the harness's own maximum matching / brute force",
+            "small-scope exhaustive enumeration of graphs, against the harness's own maximum matching / brute force; "
+            "the two augmenting-path matchers judged directly (valid matching of maximum size)",
             "All 69904 labelled graphs with |U|<=4, V<4 enumerated (thorough; exhaustive: true), random graphs to 40x40, "
             "every construction step of generated term tables observed through a hook, and bond_dims compared with the "
             "minimum cover of the harness's own term table at every cut.",
